@@ -281,6 +281,25 @@ func Renamed(pt *T) *T {
 	mk := func(x *T) *T { return x }
 	return mk(pt) // S-RENAMED
 }
+
+type Other struct{}
+
+// a METHOD of another type that merely shares the constructor's name is not the function NewT
+func (Other) NewT() *T {
+	var z T // M-OTHER-VAR
+	_ = z
+	_ = new(T) // M-OTHER-NEW
+	return &T{} // M-OTHER-LIT
+}
+
+type NP *T
+
+func Parens() {
+	_ = (new)(T) // P-PAREN-NEW
+	_ = ((new))(T) // P-PAREN2-NEW
+	_ = []NP{{f: 1}} // P-NAMEDPTR-ELIDED
+	_ = map[string]NP{"k": {}} // P-NAMEDPTR-MAP
+}
 `
 
 // ZZC02Local: a function-local type that shares the annotated type's name, and a local function value named new
@@ -289,5 +308,15 @@ func ZZC02Local() {
 	ctor := nd.EnumPad("ctor", " @constructor NewT", " plain")
 	prog := nd.LoadProgram([]nd.File{{Pkg: "zzmod/d", Name: "d.go", Src: c02SrcLocal}}, []nd.Hole{{"ctor", ctor}})
 	res := Analyze(prog, config.Default(), "zzmod/d", Facts{}, "ctor")
-	CheckExact(res.Diags, []Expect{}, "C02 local type / shadowed new: nothing is an instantiation of the annotated type")
+	ann := nd.HasPrefix(ctor, " @constructor")
+	f := "/zz/zzmod/d/d.go"
+	CheckExact(res.Diags, []Expect{
+		{f, nd.LineOf(c02SrcLocal, "M-OTHER-VAR"), "CTOR03", ann},
+		{f, nd.LineOf(c02SrcLocal, "M-OTHER-NEW"), "CTOR02", ann},
+		{f, nd.LineOf(c02SrcLocal, "M-OTHER-LIT"), "CTOR01", ann},
+		{f, nd.LineOf(c02SrcLocal, "P-PAREN-NEW"), "CTOR02", ann},
+		{f, nd.LineOf(c02SrcLocal, "P-PAREN2-NEW"), "CTOR02", ann},
+		{f, nd.LineOf(c02SrcLocal, "P-NAMEDPTR-ELIDED"), "CTOR01", ann},
+		{f, nd.LineOf(c02SrcLocal, "P-NAMEDPTR-MAP"), "CTOR01", ann},
+	}, "C02 local type / shadowed new are no instantiations; a same-named method of another type, (new)(T) and elided literals of a named pointer type are")
 }
